@@ -1,5 +1,6 @@
 import Typegen.RunTheorems
 import Typegen.Generated.Tables
+import Typegen.KeySound
 /-! # C08 — the cache never leaves stale bindings: success means output is current
 
 `R.run` mirrors `run_generate` / `generate_bindings` (cache decision, invalidate-first, write order,
@@ -86,5 +87,65 @@ theorem C08_hashedFields_cover : missingFields = [] := by decide +kernel
     equal keys give equal generations (the abstract form of `key_determines_view`) -/
 theorem C08_keySound_projection {A : Type} (proj : A → List Nat) (gen : List Nat → List (R.Name × List Nat))
     (a b : A) (h : proj a = proj b) : gen (proj a) = gen (proj b) := by rw [h]
+
+/-! ## the concrete system: the model's analysis and generators behind the run model -/
+
+deriving instance DecidableEq for Gn.Config
+
+/-- the run model instantiated with the analysis model (`An.analyze`), the generator model (`Gn.generate`) and the
+    hashed view as key (`KS.viewOf`: one component per `*HashData` list of generation_cache.rs) -/
+def concreteSys : Sys Pj.Project Gn.Config (KS.View × Gn.Config) Str where
+  key p c := (KS.viewOf (An.analyze p), c)
+  gen p c :=
+    let o := Gn.generate c (An.analyze p)
+    [("types.ts", Gn.fileText o.types), ("commands.ts", Gn.fileText o.commands)] ++
+    (match o.events with | some e => [("events.ts", Gn.fileText e)] | none => []) ++
+    [("index.ts", Gn.fileText o.index)]
+  empty p := (An.analyze p).commands.isEmpty
+
+theorem concrete_keySound (s : Pj.Project) (c : Gn.Config) (s' : Pj.Project) (c' : Gn.Config)
+    (h : concreteSys.key s c = concreteSys.key s' c') : concreteSys.gen s c = concreteSys.gen s' c' := by
+  simp only [concreteSys, Prod.mk.injEq] at h
+  simp only [concreteSys]
+  rw [KS.keySound c c' s s' h.1 h.2]
+
+theorem concrete_namesDistinct (s : Pj.Project) (c : Gn.Config) : NamesDistinct (concreteSys.gen s c) := by
+  simp only [concreteSys, NamesDistinct]
+  cases (Gn.generate c (An.analyze s)).events <;> simp
+
+/-- **C08 for the modelled tool, no hypothesis left about the key**: after any history of edits, deletions, cache
+    losses, runs, faults and crashes from an empty output directory, a run of the modelled tool (analysis model +
+    generator model + run model) that reports success leaves every file of a forced generation in place with that
+    content.  The remaining assumptions are outside the model: the hash function is injective on the view, and the
+    real analysis / generators agree with the model (the correspondence, run on every check). -/
+theorem C08_concrete (src : Pj.Project) (cfg : Gn.Config) (h : List (Step Pj.Project Gn.Config))
+    (forced : Bool) (fault : Option Nat) :
+    let w := exec concreteSys { src := src, cfg := cfg, out := { files := fun _ => none, cache := none } } h
+    concreteSys.empty w.src = false → (run concreteSys w.src w.cfg forced fault w.out).1 = .ok →
+    Current (run concreteSys w.src w.cfg forced fault w.out).2.2 (concreteSys.gen w.src w.cfg) :=
+  C08 concreteSys concrete_keySound concrete_namesDistinct src cfg h forced fault
+
+/-- the two things an analysis carries beyond the hashed view do not reach the output: the file an event was found in
+    is never read, the dependency sets are a function of the discovered types -/
+theorem C08_generation_reads_only_the_view (cfg : Gn.Config) (p : Pj.Project) :
+    Gn.generate cfg (An.analyze p) = Gn.generate cfg (KS.ofView (KS.viewOf (An.analyze p))) :=
+  KS.generate_of_view cfg p
+
+/-- every component of the model's view is recorded by the hash structs of the tree this build ran against -/
+def viewFields : List (String × String) := [
+  ("CommandHashData", "name"), ("CommandHashData", "file_path"), ("CommandHashData", "is_async"),
+  ("CommandHashData", "parameters"), ("CommandHashData", "return_type"), ("CommandHashData", "channels"),
+  ("CommandHashData", "serde_rename_all"),
+  ("ParameterHashData", "name"), ("ParameterHashData", "rust_type"), ("ParameterHashData", "is_optional"),
+  ("ParameterHashData", "serde_rename"),
+  ("ChannelHashData", "parameter_name"), ("ChannelHashData", "message_type"),
+  ("StructHashData", "name"), ("StructHashData", "is_enum"), ("StructHashData", "fields"), ("StructHashData", "serde_rename_all"),
+  ("FieldHashData", "name"), ("FieldHashData", "rust_type"), ("FieldHashData", "is_optional"), ("FieldHashData", "is_public"),
+  ("FieldHashData", "serde_rename"), ("FieldHashData", "validator_attributes"),
+  ("EventHashData", "event_name"), ("EventHashData", "payload_type"),
+  ("ConfigHashData", "validation_library"), ("ConfigHashData", "type_mappings"),
+  ("ConfigHashData", "default_parameter_case"), ("ConfigHashData", "default_field_case")]
+
+theorem C08_view_is_hashed : viewFields.all hashed = true := by decide +kernel
 
 end TG.C08
